@@ -254,7 +254,11 @@ def config_st(draw):
 
 @st.composite
 def case_strategy(draw):
-    mode = draw(st.sampled_from(["plain", "plain", "plain", "yield", "eof", "eof"]))
+    mode = draw(st.sampled_from(["plain", "plain", "plain", "yield", "eof", "eof", "const-branch"]))
+    if mode == "const-branch":
+        prog, datas = draw(gen.const_branch_program())
+        configs = [["-O3"], ["-O1"]] + [draw(config_st())]
+        return prog, [], configs, datas
     if mode == "eof":
         from checks.c17 import eof_program
         prog, argv = draw(eof_program())
@@ -265,7 +269,7 @@ def case_strategy(draw):
         return prog, base_extra, configs, choices
     cfg = gen.GenConfig(max_depth=2, max_stmts=5, allow_yield=(mode == "yield"), allow_end=(mode == "eof"),
                         kinds={"yield": 2 if mode == "yield" else 0, "try": 4, "case": 4, "if": 3, "ifact": 2, "loop": 3, "hook": 3,
-                               "assignstr": 2, "optional": 3}, wide_bytes=0.05, const_conditions=2)
+                               "assignstr": 2, "optional": 3}, wide_bytes=0.05, const_conditions=4)
     prog = draw(gen.program(cfg))
     base_extra = [a for a in prog.argv if not a.startswith("-O")]
     configs = [["-O3"]] + [draw(config_st()) for _ in range(draw(st.integers(1, 2)))]
